@@ -269,15 +269,38 @@ def AddrArg.parse : AddrArg → Option Addr
   | .addr a => some a
   | _ => none
 
-/-- `PerformSetMetadata` (`base = none`: `metadata.Base == ""`) -/
-def wSetMeta (st : St) (a : Addr) (d : Denom) (base : Option Denom) (mdOk : Bool) (tag : Nat) : St × Res :=
+/-- the bank metadata a contract hands to the bindings (`bindings/types.Metadata`), reduced to what
+`PerformSetMetadata` and `banktypes.Metadata.Validate` look at:
+`base` = `metadata.base` (`none`: the empty string), `body` = the denomination the record describes
+itself as (`display` and `denom_units[0].denom`), `ok` = the remaining fields validate (name, symbol,
+exponent 0 of the first unit), `tag` = the `Name`.  A contract is free to send a record whose `base`
+and `body` name a denomination different from the `denom` field of the message. -/
+structure WMeta where
+  base : Option Denom
+  body : Denom
+  ok : Bool
+  tag : Nat
+deriving Repr
+
+/-- `banktypes.Metadata.Validate` of the record that will be stored under `key` (= `Base`):
+name / symbol non-blank, `Base` and `Display` valid denominations, `DenomUnits[0].Denom == Base`
+with exponent 0, `Display` among the units.  Every failure is an unregistered error. -/
+def bankMetaOk (key body : Denom) (ok : Bool) : Bool :=
+  ok && validDenom key && validDenom body && decide (body = key)
+
+/-- `PerformSetMetadata`.  The admin check is on `d` (the `denom` field of the message); the record
+that `bank.SetDenomMetaData` writes is keyed by `metadata.Base` — so the code fills an empty base
+with `d` and refuses any other base.  The model keeps the write keyed by the base, as the code does:
+that it can only ever be `d` is a theorem (`wasm_setmeta_key_is_checked_denom`), not a definition. -/
+def wSetMeta (st : St) (a : Addr) (d : Denom) (base : Option Denom) (body : Denom) (mdOk : Bool) (tag : Nat) :
+    St × Res :=
   if st.admin d ≠ some a then (st, .rej .other) else
   if base.isSome && base ≠ some d then (st, .rej .other) else
-  if !(mdOk && validDenom d) then (st, .rej .other) else
-  ({ st with dmeta := updD st.dmeta d (some tag) }, .ok)
+  if !(bankMetaOk (base.getD d) body mdOk) then (st, .rej .other) else
+  ({ st with dmeta := updD st.dmeta (base.getD d) (some tag) }, .ok)
 
-/-- `PerformCreateDenom` with optional metadata -/
-def wCreate (st : St) (a : Addr) (sub : Denom) (md : Option (Bool × Nat)) : St × Res :=
+/-- `PerformCreateDenom` with optional metadata (`PerformSetMetadata` on the new denomination) -/
+def wCreate (st : St) (a : Addr) (sub : Denom) (md : Option WMeta) : St × Res :=
   match basicCreate a sub with
   | some e => (st, .rej e)
   | none =>
@@ -285,9 +308,9 @@ def wCreate (st : St) (a : Addr) (sub : Denom) (md : Option (Bool × Nat)) : St 
     match md with
     | none => hCreate st a sub
     | some m =>
-      if (wSetMeta (hCreate st a sub).1 a (tokenDenom a sub) none m.1 m.2).2 ≠ .ok
-      then (st, (wSetMeta (hCreate st a sub).1 a (tokenDenom a sub) none m.1 m.2).2)
-      else wSetMeta (hCreate st a sub).1 a (tokenDenom a sub) none m.1 m.2
+      if (wSetMeta (hCreate st a sub).1 a (tokenDenom a sub) m.base m.body m.ok m.tag).2 ≠ .ok
+      then (st, (wSetMeta (hCreate st a sub).1 a (tokenDenom a sub) m.base m.body m.ok m.tag).2)
+      else wSetMeta (hCreate st a sub).1 a (tokenDenom a sub) m.base m.body m.ok m.tag
 
 /-- `PerformMint`: mint to the contract, then `bank.SendCoins(contract, recipient)` -/
 def wMint (st : St) (a : Addr) (d : Denom) (amt : Int) (to : AddrArg) : St × Res :=
@@ -344,11 +367,11 @@ inductive Op where
   | burn (mode : Nat) (s c : Addr) (d : Denom) (amt : Int)
   | chadmin (mode : Nat) (s c : Addr) (d : Denom) (new : AddrArg)
   | setmeta (mode : Nat) (s c : Addr) (d : Denom) (mdOk : Bool) (tag : Nat)
-  | wcreate (a : Addr) (sub : Denom) (md : Option (Bool × Nat))
+  | wcreate (a : Addr) (sub : Denom) (md : Option WMeta)
   | wmint (a : Addr) (d : Denom) (amt : Int) (to : AddrArg)
   | wburn (a : Addr) (d : Denom) (amt : Int) (frm : AddrArg)
   | wchadmin (a : Addr) (d : Denom) (new : AddrArg)
-  | wsetmeta (a : Addr) (d : Denom) (base : Option Denom) (mdOk : Bool) (tag : Nat)
+  | wsetmeta (a : Addr) (d : Denom) (base : Option Denom) (body : Denom) (mdOk : Bool) (tag : Nat)
   | send (a b : Addr) (d : Denom) (amt : Int)
   | grant (c s : Addr)
   | revoke (c s : Addr)
@@ -365,7 +388,7 @@ def step (st : St) : Op → St × Res
   | .wmint a d amt to => wMint st a d amt to
   | .wburn a d amt frm => wBurn st a d amt frm
   | .wchadmin a d new => wChAdmin st a d new
-  | .wsetmeta a d base mdOk tag => wSetMeta st a d base mdOk tag
+  | .wsetmeta a d base body mdOk tag => wSetMeta st a d base body mdOk tag
   | .send a b d amt => txSend st a b d amt
   | .grant c s => txGrant st c s
   | .revoke c s => txRevoke st c s
@@ -391,7 +414,7 @@ def Op.adminAct : Op → Option (Addr × Denom)
   | .wmint a d _ _ => some (a, d)
   | .wburn a d _ _ => some (a, d)
   | .wchadmin a d _ => some (a, d)
-  | .wsetmeta a d _ _ _ => some (a, d)
+  | .wsetmeta a d _ _ _ _ => some (a, d)
   | _ => none
 
 /-- `(signer, declared creator)` of the tokenfactory transactions -/
